@@ -93,7 +93,7 @@ def corpus():
     cs.append(_with_probes([dict(op='add_hook', rule='/a', h=50), dict(op='add_hook', rule='/a', h=51, partial=True),
                             A('/a/b', 1), dict(op='add_hook', rule='/a', h=52), dict(op='add_hook', rule='/', h=53),
                             dict(op='remove_hook', rule='/a'), dict(op='remove_hook', rule='/a/*')], full=True))
-    # F20 witness: a route whose rule ends in '*' removed by name is removed exactly; by rule it is the prefix removal
+    # F33 witness: a route whose rule ends in '*' removed by name is removed exactly; by rule it is the prefix removal
     cs.append(_with_probes([A('/p/q', 1), A('/p/*', 2, name='n1'), A('/p/<y:path>/e', 3), dict(op='remove_name', name='n1'),
                             A('/p/*', 4, name='n2'), dict(op='remove', rule='/p/*'), A('/p/q', 5)], full=True))
     # wildcard siblings, filter conflict, shared pattern with other names, method removal
@@ -110,11 +110,14 @@ def _gen_ops(rng, n, admissible=True):
         r = rng.random()
         if r < 0.38:
             rule = rng.choice(RULES)
+            prev = [o for o in ops if o['op'] == 'add']
+            if prev and rng.random() < 0.3:
+                rule = prev[-1]['rule']          # same route again: another method / another NAME (aliases)
             if rule in ALT and rng.random() < 0.3:
                 rule = ALT[rule]
             ms = rng.choice([['GET'], ['GET'], ['POST'], ['GET', 'POST'], ['ANY'], ['get']])
             ops.append(dict(op='add', rule=rule, methods=ms, h=rng.randrange(1, 9),
-                            name=rng.choice([None, None, None] + NAMES), overwrite=rng.random() < 0.2))
+                            name=rng.choice([None, None] + NAMES), overwrite=rng.random() < 0.25))
         elif r < 0.55:
             ops.append(dict(op='remove', rule=rng.choice(RULES)))
         elif r < 0.63:
